@@ -99,18 +99,28 @@ func (c *stackClass_[V]) MakeWithCapacity(capacity uint) StackLike[V] {
 
 func (c *stackClass_[V]) MakeFromArray(values []V) StackLike[V] {
 	var list = List[V](c.notation_).MakeFromArray(values)
+	var capacity = c.defaultCapacity_
+	if uint(list.GetSize()) > capacity {
+		// The stack must be able to hold all of the initial values.
+		capacity = uint(list.GetSize())
+	}
 	return &stack_[V]{
 		class_:    c,
-		capacity_: c.defaultCapacity_,
+		capacity_: capacity,
 		values_:   list,
 	}
 }
 
 func (c *stackClass_[V]) MakeFromSequence(values Sequential[V]) StackLike[V] {
 	var list = List[V](c.notation_).MakeFromSequence(values)
+	var capacity = c.defaultCapacity_
+	if uint(list.GetSize()) > capacity {
+		// The stack must be able to hold all of the initial values.
+		capacity = uint(list.GetSize())
+	}
 	return &stack_[V]{
 		class_:    c,
-		capacity_: c.defaultCapacity_,
+		capacity_: capacity,
 		values_:   list,
 	}
 }
